@@ -14,9 +14,6 @@
 (***************************************************************************)
 EXTENDS Message, SignType
 
-NoReply == Msg("None", 0, "", 0, <<>>)
-BusErr  == Msg("BusError", 0, "", 0, <<>>)
-
 MaxAttempts == 3
 
 Calls == {"configure", "configure_if_needed", "send_pages", "show", "load", "shut_down"}
